@@ -5,7 +5,7 @@ they denote.  Property theorems only (helper lemmas live in Proofs/).
 All statements quantify over *every* number of levels, every block size and
 every per-level pattern (lists in their stored order), with no bound.
 -/
-import Pyiga.Proofs.MLMatrix
+import Pyiga.Proofs.MLRows
 
 namespace Pyiga.Props.C15
 open Pyiga.Index Pyiga.ML
@@ -172,5 +172,91 @@ theorem nonzero_dispatch (S : MLStructure) (lower : Bool) (hL : S.bs.length = S.
     by_cases h8 : bidx'.length + 1 + 1 + 1 + 1 ≤ 8
     · rw [if_pos h8, if_neg (by omega)]
     · rw [if_neg h8, if_pos (by omega)]
+
+/-! ## transposition, reindexing, per-row / per-column queries -/
+
+/-- the transposed structure reports the swapped positions, in the same layout order -/
+theorem transpose_nonzero (S : MLStructure) :
+    S.transpose.nonzeroSpec false = (S.nonzeroSpec false).map (fun e => (e.2, e.1)) :=
+  transpose_spec S
+
+/-- `reindex_from_multilevel ∘ reindex_to_multilevel = id` for every level count -/
+theorem reindex_inverse (i j : Nat) (bs : List (Nat × Nat))
+    (hpos : ∀ b ∈ bs, 0 < b.1 ∧ 0 < b.2)
+    (hi : i < prod (bs.map (·.1))) (hj : j < prod (bs.map (·.2))) :
+    reindexFromMultilevel (reindexToMultilevel i j bs) bs = (i, j) :=
+  reindex_roundtrip i j bs hpos hi hj
+
+example : reindexToMultilevel 7 5 [(2,3),(4,2)] = [5, 7] ∧
+    reindexFromMultilevel [5, 7] [(2,3),(4,2)] = (7, 5) := by decide
+
+/-- `reindex_from_reordered` is the two-level instance -/
+theorem reindex_from_reordered_two_level (i j m1 n1 m2 n2 : Nat) (hi : i < m1 * n1) (hj : j < m2 * n2) :
+    reindexFromReordered i j m1 n1 m2 n2 = reindexFromMultilevel [i, j] [(m1, n1), (m2, n2)] :=
+  reindexFromReordered_eq i j m1 n1 m2 n2 hi hj
+
+/-- the raveled-Cartesian-product odometer (used per requested row) emits the raveled
+lexicographic product for any number of arrays, including empty ones -/
+theorem raveled_cartesian_product_refines (arrays : List (List Nat)) (dims : List Nat) :
+    ravCart arrays dims = (cartesian arrays).map (fun K => toSeq K dims) := ravCart_eq arrays dims
+
+theorem pos_of_prod_pos : ∀ (l : List Nat), 0 < prod l → ∀ m ∈ l, 0 < m
+  | [], _, m, hm => by simp at hm
+  | x :: xs, h, m, hm => by
+    simp only [prod_cons] at h
+    have hx : 0 < x := Nat.pos_of_mul_pos_right h
+    have hxs : 0 < prod xs := Nat.pos_of_mul_pos_left h
+    simp only [List.mem_cons] at hm
+    rcases hm with rfl | hm
+    · exact hx
+    · exact pos_of_prod_pos xs hxs m hm
+
+/-- one requested row: the columns reported for row `r` are exactly the entries of the layout
+specification lying in row `r`, in layout order -/
+theorem row_spec (S : MLStructure) (hL : S.bs.length = S.bidx.length) (hr : InRange S.bidx S.bs)
+    (r : Nat) (hrow : r < prod S.rows) :
+    ravCart (((S.bs.zip S.bidx).map (fun (bb : (Nat × Nat) × Pattern) => rowwise bb.1.1 bb.2)).zip
+        (fromSeq r S.rows) |>.map (fun (li : List (List Nat) × Nat) => li.1.getD li.2 [])) S.cols
+      = ((S.nonzeroSpec false).filter (fun p => p.1 = r)).map (·.2) := by
+  have hpos := pos_of_prod_pos S.rows (by omega)
+  have hb : Below (fromSeq r S.rows) (S.bs.map (·.1)) := fromSeq_below r S.rows hpos
+  have hlen : (fromSeq r S.rows).length = S.bidx.length := by
+    rw [fromSeq_length]; simp [MLStructure.rows, hL]
+  rw [ia_eq S.bs S.bidx _ hL hb, ravCart_eq, cartesian_map_snd, product_filter _ _ hlen,
+    nonzeroSpec_eq_product]
+  simp only [MLStructure.lowerFilter, Bool.false_eq_true, if_false, List.filter_map, List.map_map]
+  have hf : (product S.bidx).filter (fun es => es.map (·.1) = fromSeq r S.rows) =
+      (product S.bidx).filter ((fun p : Nat × Nat => decide (p.1 = r)) ∘
+        fun es => (toSeq (es.map (·.1)) S.rows, toSeq (es.map (·.2)) S.cols)) := by
+    apply List.filter_congr
+    intro es hes
+    have hm := (mem_product _ _).1 hes
+    obtain ⟨bI, _⟩ := allMem_inRange es S.bidx S.bs hm hr
+    simp only [Function.comp, decide_eq_decide]
+    constructor
+    · intro h; rw [h]; exact toSeq_fromSeq r _ hrow
+    · intro h; rw [← h]; exact (fromSeq_toSeq _ _ bI).symm
+  rw [hf]
+  rfl
+
+/-- **per-row query**: `nonzeros_for_rows(R)` (any order of `R`, duplicates allowed) returns, row
+by row in the order of `R`, exactly the entries of the layout specification in that row, each
+tagged with the row's position in `R` (the `renumber_rows` output). -/
+theorem rows_spec (S : MLStructure) (hL : S.bs.length = S.bidx.length) (hr : InRange S.bidx S.bs)
+    (R : List Nat) (hR : ∀ r ∈ R, r < prod S.rows) :
+    S.nonzerosForRows R = R.zipIdx.flatMap (fun ri =>
+      ((S.nonzeroSpec false).filter (fun p => p.1 = ri.1)).map (fun p => (ri.1, p.2, ri.2))) := by
+  unfold MLStructure.nonzerosForRows
+  apply flatMap_congr'
+  intro ri hri
+  have hmem : ri.1 ∈ R := by
+    have := List.mem_zipIdx hri
+    rcases ri with ⟨r, k⟩
+    simp only at this ⊢
+    rw [this.2.2]; exact List.getElem_mem _
+  have := row_spec S hL hr ri.1 (hR _ hmem)
+  simp only [] at this ⊢
+  rw [this, List.map_map]
+  rfl
 
 end Pyiga.Props.C15
